@@ -1,4 +1,5 @@
 import Az65.Model.Interp
+import Az65.Model.PumpG
 import Az65.Model.Tables
 import Az65.Model.CharReader
 import Az65.Gen.TreeZ80
@@ -54,12 +55,6 @@ def searchFile (fs : FileSys) (searchPaths : List String) (cwd path : String) : 
   ((cwd :: searchPaths).map fun d => absolutize d path).find? fs.isFile
 
 /-! ### macros and token sources -/
-
-inductive MTok where
-  | tok (t : LTok)
-  | arg (i : Nat)
-  | entropy (loc : Loc)
-  deriving Repr, Inhabited
 
 structure Macro where
   args : List String
@@ -202,7 +197,7 @@ def stringify (a : Arch) (t : Tok) : Option String :=
   match t with
   | .str s => some s
   | .label _ s => some s
-  | .num v => some (String.ofList (Nat.toDigits 16 v))
+  | .num v => some (String.ofList (digitsOf 16 v))
   | .op n => some (display d.ops n)
   | .reg n => some (display d.regs n)
   | .sym n => some (showSymbol n)
@@ -221,8 +216,8 @@ def wordCount : List Char → Bool → Nat → Nat
     if isWs c then wordCount r false n
     else if inWord then wordCount r true n else wordCount r true (n + 1)
 
-def binDigits (v : Nat) : String := String.ofList (Nat.toDigits 2 v)
-def hexDigits (v : Nat) : String := String.ofList (Nat.toDigits 16 v)
+def binDigits (v : Nat) : String := String.ofList (digitsOf 2 v)
+def hexDigits (v : Nat) : String := String.ofList (digitsOf 16 v)
 
 def qualifyOrFail (kind : LabelKind) (value : String) (loc : Loc) : AM String := do
   match qualify (← get).core.ns kind value with
@@ -377,19 +372,7 @@ def collectArgsF : Nat → Nat → Nat → List (List LTok) → AM (List (List L
 /-- One macro argument: brace depth counter, line breaks and comments dropped. -/
 def oneArgF : Nat → Nat → List LTok → AM (List LTok)
   | 0, _, _ => do fail .fuel ((← get).loc.getD {})
-  | f + 1, depth, toks => do
-    match ← nextF f with
-    | none => eoiErr
-    | some ⟨.newline, _⟩ => oneArgF f depth toks
-    | some ⟨.comment, _⟩ => oneArgF f depth toks
-    | some t@⟨.sym "BraceOpen", _⟩ =>
-      oneArgF f (depth + 1) (if depth > 0 then toks ++ [t] else toks)
-    | some t@⟨.sym "BraceClose", loc⟩ =>
-      if depth = 0 then fail .unexpected loc
-      else if depth = 1 then pure toks
-      else oneArgF f (depth - 1) (toks ++ [t])
-    | some t =>
-      if depth = 0 then pure (toks ++ [t]) else oneArgF f depth (toks ++ [t])
+  | f + 1, depth, toks => fun s => oneArgG (opsF f) f depth toks s
 
 /-- `expect_string_directive_arg` / `expect_label_directive_arg`. -/
 def stringArgF : Nat → Loc → Bool → AM LTok
@@ -436,9 +419,8 @@ def countF : Nat → Loc → AM MacroState
       let s ← get
       let name := "@count Invocation" ++ toString s.entropy
       let ent := "__" ++ toString s.entropy
-      let toks := (List.range v.toNat).map fun i => MTok.tok ⟨.num i, loc⟩
       -- the look-ahead token left in the stash is re-queued after the generated tokens
-      let toks := match s.stash with | some t => toks ++ [.tok t] | none => toks
+      let toks := countToks v.toNat loc s.stash
       set { s with entropy := s.entropy + 1, stash := none,
                    macros := setMacro s.macros name { args := [], toks := toks } }
       pure { name := name, args := [], loc := loc, includedFrom := some loc, entropy := ent }
@@ -532,10 +514,7 @@ def eachBodyF : Nat → String → List MTok → AM (List MTok)
     match ← nextF f with
     | none => eoiErr
     | some ⟨.dir "EndEach", _⟩ => pure acc
-    | some ⟨.dir "Entropy", loc⟩ => eachBodyF f argName (acc ++ [.entropy loc])
-    | some t@⟨.label .global v, _⟩ =>
-      if v = argName then eachBodyF f argName (acc ++ [.arg 0]) else eachBodyF f argName (acc ++ [.tok t])
-    | some t => eachBodyF f argName (acc ++ [.tok t])
+    | some t => eachBodyF f argName (acc ++ [slotOf [argName] t])
 
 /-- `const_expr` over the pump at this fuel. -/
 def constExprF : Nat → AM (Loc × Option I32)
